@@ -1,7 +1,6 @@
 package main
 
 import (
-	"sort"
 	"encoding/hex"
 	"errors"
 	"fmt"
@@ -11,6 +10,7 @@ import (
 	"path/filepath"
 	"regexp"
 	"runtime"
+	"sort"
 	"strconv"
 	"strings"
 	"sync"
@@ -27,32 +27,32 @@ import (
 // concurrent client sections) against the real code with hooks on, and records the white-box trace for SimpleDBTrace.tla.
 
 type dbStep struct {
-	Op         string     `json:"op"`
-	K          int        `json:"k"`
-	V          string     `json:"v"`
-	Pad        int        `json:"pad"`
-	Mem        uint64     `json:"mem"`
-	Thr        int        `json:"thr"`
-	MaxSize    uint64     `json:"maxSize"`
-	Ratio      int        `json:"ratio"` // per-mille, exactly representable as float32 after /1000
-	RBuf       uint64     `json:"rbuf"`
-	WBuf       uint64     `json:"wbuf"`
-	Bg         bool       `json:"bg"`
-	IntervalUs int        `json:"interval_us"`
-	Us         int        `json:"us"`
-	Clients    [][]dbStep `json:"clients"`
-	Flavor     string     `json:"flavor"`  // "bytes" (default) or "string"
-	Async      bool       `json:"async"`   // EnableAsyncWAL
-	ExactOf    int        `json:"exactof"` // open: if > 0, CompactionMaxSizeBytes := TotalBytes of the (exactof)-th table on disk + Delta
-	Delta      int        `json:"delta"`
-	Match      string     `json:"match"` // failwrites: substring of the writer's base path
-	Which      string     `json:"which"` // failwrites: data | index
-	Pos        int        `json:"pos"`   // failwrites: position of the failing append
-	KC         string     `json:"kc"`    // argument class of the key for putx/delx/getx: nil | empty | ok
-	VC         string     `json:"vc"`    // argument class of the value for putx
-	Sched      []schedStep `json:"sched"` // op "sched": a complete schedule of the concurrent model (GenSimpleDBConc.tla)
-	MF         bool       `json:"mf"`       // put / del: the environment may make this call fail (injected I/O error); close: an error is tolerated
-	DirectIO   bool       `json:"directio"` // open: EnableDirectIOWAL (with the synchronous WAL every mutation is refused by design)
+	Op         string      `json:"op"`
+	K          int         `json:"k"`
+	V          string      `json:"v"`
+	Pad        int         `json:"pad"`
+	Mem        uint64      `json:"mem"`
+	Thr        int         `json:"thr"`
+	MaxSize    uint64      `json:"maxSize"`
+	Ratio      int         `json:"ratio"` // per-mille, exactly representable as float32 after /1000
+	RBuf       uint64      `json:"rbuf"`
+	WBuf       uint64      `json:"wbuf"`
+	Bg         bool        `json:"bg"`
+	IntervalUs int         `json:"interval_us"`
+	Us         int         `json:"us"`
+	Clients    [][]dbStep  `json:"clients"`
+	Flavor     string      `json:"flavor"`  // "bytes" (default) or "string"
+	Async      bool        `json:"async"`   // EnableAsyncWAL
+	ExactOf    int         `json:"exactof"` // open: if > 0, CompactionMaxSizeBytes := TotalBytes of the (exactof)-th table on disk + Delta
+	Delta      int         `json:"delta"`
+	Match      string      `json:"match"`    // failwrites: substring of the writer's base path
+	Which      string      `json:"which"`    // failwrites: data | index
+	Pos        int         `json:"pos"`      // failwrites: position of the failing append
+	KC         string      `json:"kc"`       // argument class of the key for putx/delx/getx: nil | empty | ok
+	VC         string      `json:"vc"`       // argument class of the value for putx
+	Sched      []schedStep `json:"sched"`    // op "sched": a complete schedule of the concurrent model (GenSimpleDBConc.tla)
+	MF         bool        `json:"mf"`       // put / del: the environment may make this call fail (injected I/O error); close: an error is tolerated
+	DirectIO   bool        `json:"directio"` // open: EnableDirectIOWAL (with the synchronous WAL every mutation is refused by design)
 }
 
 type dbCase struct {
@@ -67,7 +67,7 @@ type dbIn struct {
 	// how the database directory is spelled when it is handed to NewSimpleDB: "" (clean) | "slash" (trailing /) | "dslash" (// inside) |
 	// "dot" (/./ inside) | "glob" (the directory NAME contains glob metacharacters) | "rel" (relative to the working directory)
 	DirStyle string `json:"dirstyle"`
-	Seed  int64    `json:"seed"`
+	Seed     int64  `json:"seed"`
 }
 
 var genRe = regexp.MustCompile(`sstable_(\d+)$`)
@@ -330,11 +330,13 @@ func runDB(args []string) error {
 }
 
 type dbExec struct {
+	kbMu    sync.Mutex
+	kbufs   map[int][]byte
 	rec     *dbRecorder
 	keys    [][]byte
 	dir     string // canonical path (observation, copies)
 	openDir string // the same directory as it is spelled for NewSimpleDB
-	mayFail bool // the current session's options refuse every mutation (direct-I/O WAL without the asynchronous mode)
+	mayFail bool   // the current session's options refuse every mutation (direct-I/O WAL without the asynchronous mode)
 }
 
 func (x *dbExec) step(db *simpledb.DB, s dbStep, g int) (*simpledb.DB, error) {
@@ -538,6 +540,21 @@ func (x *dbExec) step(db *simpledb.DB, s dbStep, g int) (*simpledb.DB, error) {
 	return db, nil
 }
 
+// keyBuf: one reusable key buffer per client goroutine
+func (x *dbExec) keyBuf(g int, k []byte) []byte {
+	if len(k) == 0 {
+		return k // nil and empty keys are argument classes of their own (C17): passed as they are
+	}
+	x.kbMu.Lock()
+	defer x.kbMu.Unlock()
+	if x.kbufs == nil {
+		x.kbufs = map[int][]byte{}
+	}
+	b := append(x.kbufs[g][:0], k...)
+	x.kbufs[g] = b
+	return b[:len(k):len(k)]
+}
+
 func (x *dbExec) get(db *simpledb.DB, k int, g int, flavor string) string {
 	x.rec.emit(M{"t": "inv", "g": g, "op": "get", "k": k, "v": "", "kc": "ok", "vc": "ok", "fl": "bytes"})
 	var v []byte
@@ -547,7 +564,12 @@ func (x *dbExec) get(db *simpledb.DB, k int, g int, flavor string) string {
 		sv, err = db.Get(string(x.keys[k]))
 		v = []byte(sv)
 	} else {
-		v, err = db.GetBytes(x.keys[k])
+		// the key travels in a buffer of this goroutine that is refilled for its next call (the database may keep nothing of it)
+		kb := x.keyBuf(g, x.keys[k])
+		v, err = db.GetBytes(kb)
+		for i := range kb {
+			kb[i] = 0xEE
+		}
 		defer pokeReturned(v)
 	}
 	r := ""
